@@ -465,7 +465,9 @@ theorem tok_step {s s' : State} (inv : Inv s) (uq : OpsUniq s) (ti : TokInv s) {
             · cases h; exact tok_refine ti (refine_refl _) rfl rfl
           · cases h
       · cases h; exact tok_refine ti (refine_refl _) rfl rfl
-  · split at h <;> (cases h; first | exact ti | exact tok_refine ti (refine_refl _) rfl rfl)
+  · split at h
+    · split at h <;> (cases h; exact tok_refine ti (refine_refl _) rfl rfl)
+    · cases h; exact ti
   · split at h <;> (cases h; first | exact ti | exact tok_refine ti (refine_refl _) rfl rfl)
   · split at h <;> (cases h; first | exact ti | exact tok_refine ti (refine_refl _) rfl rfl)
   · split at h <;> (cases h; first | exact ti | exact tok_refine ti (refine_refl _) rfl rfl)
